@@ -318,6 +318,30 @@ def run(prog: Program) -> Results:
                     f"{f.key}: `{norm(c)}` compares the bindings of two let layers by value: an inner layer whose bindings equal the "
                     f"outermost layer's (`let debug = false; in … let debug = false; in`) is taken for a duplicate, and every selector "
                     f"after it addresses the wrong layer")
+    # ---------------------------------------------------------------- R-C09-9 a layer is stored in one place
+    r9 = res.rule("R-C09-9", "lifting a let stores every layer in exactly one place: when LetExpression.to_scoped_expression moves "
+                  "the body's own scope into the stack snapshot, the same copy also replaces the body's `scope` — otherwise the "
+                  "body's layer exists twice (own scope + stack) and is re-emitted twice", floor=2)
+    tse = prog.func("LetExpression.to_scoped_expression")
+    res.analysed_functions.add(tse.key)
+    snap_vars = set()
+    for d in ast.walk(tse.node):
+        if isinstance(d, ast.Call) and isinstance(d.func, ast.Attribute) and d.func.attr in ("append", "extend") and isinstance(d.func.value, ast.Name):
+            snap_vars.add(d.func.value.id)
+    for rt in [n for n in walk_no_nested(tse.node) if isinstance(n, ast.Return) and isinstance(n.value, ast.Call)
+               and isinstance(n.value.func, ast.Attribute) and n.value.func.attr == "model_copy"]:
+        upd = next((k.value for k in rt.value.keywords if k.arg == "update"), None)
+        if not isinstance(upd, ast.Dict):
+            continue
+        r9.instances += 1
+        keys = {k.value: v for k, v in zip(upd.keys, upd.values) if isinstance(k, ast.Constant)}
+        restacks = "scope_state" in keys and any(isinstance(x, ast.Name) and x.id in snap_vars for x in ast.walk(keys["scope_state"]))
+        ok = (not restacks) or "scope" in keys
+        r9.ob(ok, {"return_updates": sorted(keys), "re_stacks_body_layers": restacks})
+        if not ok:
+            res.add("R-C09-9", (tse.key, "body layer stored twice"), tse.loc(rt),
+                    f"{tse.key}: `{norm(rt)[:70]}` installs a stack that contains a snapshot of the body's own scope but leaves the body's "
+                    f"`scope` in place: `let in let a = 1; in a` is rebuilt with the inner let twice")
     from sa.rules import cursor
     cursor.check(prog, res, "R-C09-7", ("cli/manipulations.py",), 4)
     res.assumptions = ["contents of the other layers' text and name shadowing across layers are runtime data"]
